@@ -164,8 +164,8 @@ HARNESSES = {
         + [{"fixed": {"kind": "firewalled", "ns": n, "fstate": 0, "couple": True}, "timeout": 1500} for n in range(4)],
         "cover": ["reached", "turned_away"],
         "bounds": {
-            "quick": "every entry of the action map (54) x 4 power states x 6 coupled (service, application) states x NIC flag x 3 file states; routed topology (66 actions) with node ON through PrimaiteGymEnv.action_masks",
-            "thorough": "both topologies x 4 power states x full 6x3 service/application product x NIC flag x 3 file states",
+            "quick": "every entry of the action map (66) x 4 power states x 6 coupled (service, application) states x NIC flag x 4 file states (live, file deleted, folder deleted, folder restored then file deleted); routed topology (79 actions) with node ON through PrimaiteGymEnv.action_masks; firewall-with-DMZ topology (94 actions); descending and shuffled action-map order; an application installed at run time",
+            "thorough": "switched and routed topologies x 4 power states x full 6x3 service/application product x NIC flag x 4 file states; routed with descending / shuffled map order; firewall-with-DMZ topology x 4 power states",
         },
     },
 }
